@@ -15,6 +15,7 @@ CLAIMED = {
     "C01": ("§5 C01", "SSA symbolic execution + SMT (bit-vectors): container kernels x kind pairings, sorted-array kernels, Bitmap drivers; pointwise set-algebra oracle"),
     "C02": ("§5 C02", "SSA symbolic execution + SMT: one inductive step per mutator from an arbitrary well-formed symbolic state, compared with a description-level plain-set model"),
     "C03": ("§5 C03", "SSA symbolic execution + SMT: every scalar query on symbolic bitmaps against counting/membership oracles over descriptions; read-only-ness by representation snapshot"),
+    "C09": ("§5 C09", "SSA symbolic execution + SMT: invariant-only mode of the C01/C02 harness families from states satisfying the full invariant; wf(result) and the real Validate()==nil asserted after every operation"),
     "C15": ("§5 C15", "SSA symbolic execution + SMT: neighbour queries with free target and free probe (nearest-ness is universally quantified); per-kind helpers separately"),
 }
 NA = {
